@@ -416,3 +416,7 @@ mod test {
         }
     }
 }
+
+#[cfg(kani)]
+#[path = "/verif/kani/sciparse/policy_acl.rs"]
+mod verif_policy_acl;
